@@ -845,6 +845,9 @@ impl Axecutor {
         // envp[0] = NULL
         stack_layout.push(0);
 
+        // Space for the frame itself (plus alignment padding), in addition to the requested stack length
+        let frame_size = (stack_layout.len() as u64) * 8 + 32;
+
         let mut stack_start: u64 = 0x1000;
         loop {
             #[cfg(ax_verif)]
@@ -861,7 +864,7 @@ impl Axecutor {
             if self
                 .mem_init_zero_named(
                     stack_start,
-                    length + (stack_layout.len() as u64) * 8,
+                    length + frame_size,
                     "Stack".to_string(),
                 )
                 .is_ok()
@@ -873,7 +876,8 @@ impl Axecutor {
 
         // TODO: auxiliary vector
         // Make sure the stack is aligned to 16 bytes
-        let mut stack_top = (stack_start + length - 16) & !0xf;
+        // The frame lives in the extra space reserved for it above, not in the requested stack length
+        let mut stack_top = (stack_start + length + frame_size - 16) & !0xf;
         if stack_layout.len() % 2 == 1 {
             // However, if we push an uneven amount of 64 bit values, we need to adjust
             stack_top -= 8;
